@@ -8,6 +8,7 @@
 #include <signal.h>
 #include <time.h>
 #include <unistd.h>
+#include <errno.h>
 static pthread_mutex_t lg = PTHREAD_MUTEX_INITIALIZER;
 static long seq;
 static pthread_t tids[32]; static int ntids;
@@ -20,6 +21,31 @@ void sh_api(const char* ev, const char* op, long long a, long long b, long long 
     pthread_mutex_unlock(&lg);
 }
 void sh_point(const char* what) { (void)what; }
+
+/* Spurious wake-ups at chosen moments (POSIX allows them at any time): FX_SPURIOUS="120,260" makes a thread's timed condition
+ * waits return without signal or time-out 120 ms and 260 ms after that thread's first timed wait.  Linked with
+ * -Wl,--wrap=pthread_cond_timedwait. */
+int __real_pthread_cond_timedwait(pthread_cond_t*, pthread_mutex_t*, const struct timespec*);
+static __thread double first_ms; static __thread int nsp;
+int __wrap_pthread_cond_timedwait(pthread_cond_t* c, pthread_mutex_t* m, const struct timespec* abst) {
+    const char* e = getenv("FX_SPURIOUS"); double at = -1; int i, r;
+    if (!e) return __real_pthread_cond_timedwait(c, m, abst);
+    if (first_ms == 0) first_ms = now_ms();
+    { const char* p = e; for (i = 0; i <= nsp && p; i++) { at = i == nsp ? atof(p) : at; p = strchr(p, ','); if (p) p++; else if (i < nsp) { at = -1; break; } } if (i <= nsp && nsp > 0 && at < 0) at = -1; }
+    if (at >= 0) {
+        struct timespec rt, mono, cut; double remain_ms = first_ms + at - now_ms();
+        clock_gettime(CLOCK_REALTIME, &rt); (void)mono;
+        if (remain_ms < 0) remain_ms = 0;
+        cut.tv_sec = rt.tv_sec + (time_t)(remain_ms / 1000); cut.tv_nsec = rt.tv_nsec + (long)((remain_ms - 1000.0 * (long)(remain_ms / 1000)) * 1e6);
+        if (cut.tv_nsec >= 1000000000L) { cut.tv_nsec -= 1000000000L; cut.tv_sec++; }
+        if (cut.tv_sec < abst->tv_sec || (cut.tv_sec == abst->tv_sec && cut.tv_nsec < abst->tv_nsec)) {
+            r = __real_pthread_cond_timedwait(c, m, &cut);
+            if (r == ETIMEDOUT) { nsp++; return 0; }          /* woken "for no reason" */
+            return r;
+        }
+    }
+    return __real_pthread_cond_timedwait(c, m, abst);
+}
 static void hang(int s) { static const char m[] = "{\"ev\":\"hang\"}\n"; (void)s; if (write(1, m, sizeof m - 1)) {} _exit(4); }
 void sh_run(void* (*mainfn)(void*), void* arg) {
     signal(SIGALRM, hang); alarm(8);
